@@ -223,3 +223,164 @@ def random_script(seed, proto="at4", n_ops=30, profile="mixed"):
     b.heal()
     b.shutdown(k=rng.choice([None, 0, 1, 2, 3, 4]))
     return b.script, {"enc": b.enc, "blockers": b.blockers, "proto": proto, "profile": profile, "seed": seed}
+
+
+def long_run(seed, proto, n_sends=300):
+    """More sends than the 256-value packet counter, from 1..3 concurrent callers, with outages
+    during which 1..10 messages are pending.  No write faults, no expiries: every accepted message
+    must appear exactly once, in order."""
+    rng = random.Random(seed)
+    b = Builder(proto, rng)
+    b.nmsg = 0
+    b.preamble()
+    b.op(op="quiesce")
+    b.op(op="resolve", how="ok")
+    b.op(op="quiesce")
+    sent = 0
+    while sent < n_sends:
+        mode = rng.random()
+        if mode < 0.55:                      # connected burst from 1..3 callers in the same iteration
+            for _ in range(rng.randrange(1, 4)):
+                b.send(POL_IDEM if rng.random() < 0.7 else POL_NONIDEM)
+                sent += 1
+            b.op(op="step", k=rng.randrange(1, 3))
+        elif mode < 0.85:                    # outage: peer reset, 1..10 pending, refusals, reconnect
+            b.op(op="quiesce")
+            b.op(op="peer_reset")
+            b.op(op="quiesce")
+            for _ in range(rng.randrange(1, 11)):
+                b.send(POL_IDEM)
+                sent += 1
+                if rng.random() < 0.3:
+                    b.op(op="step", k=1)
+            if rng.random() < 0.5:
+                b.op(op="resolve", how="refuse")
+                b.op(op="quiesce")
+                b.op(op="advance", by=2000)
+            b.op(op="quiesce")
+            b.op(op="resolve", how="ok")
+            b.op(op="quiesce")
+        else:
+            b.op(op="advance", by=rng.choice([125, 500, 1000]))
+    b.heal()
+    b.shutdown()
+    return b.script, {"enc": b.enc, "blockers": [], "proto": proto, "profile": "long_run", "seed": seed}
+
+
+def expiry_boundary(seed, proto):
+    """Messages queued while down; the connection arrives at lifetime -125 ms / 0 / +125 ms; and a
+    write fault whose re-send opportunity arrives around the expiry."""
+    rng = random.Random(seed)
+    b = Builder(proto, rng)
+    b.preamble()
+    b.op(op="quiesce")
+    variant = rng.randrange(3)
+    pol = rng.choice([POL_IDEM, POL_NONIDEM, POL_CONN])
+    life = pol["policy"]["lifetime_ms"]
+    off = rng.choice([-125, 0, 125])
+    if variant == 0:                         # queued while down, connect around expiry
+        for _ in range(rng.randrange(1, 4)):
+            b.send(pol)
+        b.op(op="quiesce")
+        b.op(op="advance", by=life + off)
+        b.op(op="resolve", how="ok")
+        b.op(op="quiesce")
+    elif variant == 1:                       # refused attempts until around expiry
+        b.send(pol)
+        b.op(op="quiesce")
+        t = 0
+        b.op(op="resolve", how="refuse")
+        while t + 2000 < life + off:
+            b.op(op="advance", by=2000)
+            t += 2000
+            b.op(op="resolve", how="refuse")
+        b.op(op="advance", by=life + off - t)
+        b.op(op="resolve", how="ok")
+        b.op(op="quiesce")
+    else:                                    # connected, write fault, reconnection around expiry
+        b.op(op="resolve", how="ok")
+        b.op(op="quiesce")
+        b.op(op="arm_fault", nth=rng.randrange(1, 4))
+        b.send(pol)
+        b.op(op="quiesce")
+        b.op(op="advance", by=max(0, life + off))
+        b.op(op="resolve", how="ok")
+        b.op(op="quiesce")
+    b.heal()
+    b.shutdown()
+    return b.script, {"enc": b.enc, "blockers": [], "proto": proto, "profile": "expiry", "seed": seed}
+
+
+def shutdown_at(seed, proto):
+    """close() at a chosen instant: connect pending, back-off after refusal, connected idle, messages
+    pending during an outage, mid-reset; k loop iterations later the rest of the epilogue."""
+    rng = random.Random(seed)
+    b = Builder(proto, rng)
+    b.preamble()
+    stage = rng.randrange(6)
+    if stage >= 1:
+        b.op(op="step", k=rng.randrange(0, 3))
+    if stage == 1:
+        b.op(op="resolve", how="refuse")
+        b.op(op="step", k=rng.randrange(0, 4))
+        if rng.random() < 0.5:
+            b.op(op="advance", by=rng.choice([1875, 2000, 2125]))
+    if stage >= 2:
+        b.op(op="quiesce")
+        b.op(op="resolve", how="ok")
+        b.op(op="step", k=rng.randrange(0, 5))
+    if stage == 3:
+        b.send()
+        b.feed("good")
+        b.op(op="step", k=rng.randrange(0, 3))
+    if stage == 4:
+        b.op(op="quiesce")
+        b.op(op="peer_reset")
+        b.op(op="step", k=rng.randrange(0, 4))
+        for _ in range(rng.randrange(0, 4)):
+            b.send()
+    if stage == 5:
+        b.op(op="quiesce")
+        b.feed(rng.choice(["crc", "garbage"]))
+        b.op(op="arm_fault", nth=1)
+        b.send()
+        b.op(op="step", k=rng.randrange(0, 5))
+    b.shutdown(k=rng.randrange(0, 7))
+    if rng.random() < 0.5:                   # reversible: a later open works as on a fresh object
+        b.call("open_socket")
+        b.op(op="quiesce")
+        b.heal()
+        b.shutdown()
+    return b.script, {"enc": b.enc, "blockers": [], "proto": proto, "profile": "shutdown_at", "seed": seed}
+
+
+def queue_fill(seed, proto):
+    """Up to 14 sends with mixed lifetimes while disconnected, clock advances crossing expiries,
+    then a connection: exactly the held, unexpired messages appear, in order."""
+    rng = random.Random(seed)
+    b = Builder(proto, rng)
+    b.preamble()
+    b.op(op="quiesce")
+    if rng.random() < 0.3:
+        b.op(op="resolve", how="refuse")
+        b.op(op="quiesce")
+    for _ in range(rng.randrange(8, 15)):
+        b.send(rng.choice([POL_IDEM, POL_IDEM, POL_CONN, POL_NONIDEM, {"policy": {"retries": 1, "lifetime_ms": 2000}}]))
+        r = rng.random()
+        if r < 0.6:
+            b.op(op="quiesce")
+        if r < 0.25:
+            b.op(op="advance", by=rng.choice([125, 500, 875, 1000, 1125, 2000]))
+    if rng.random() < 0.3:
+        b.op(op="advance", by=rng.choice([29875, 30000, 30125]))
+        for _ in range(rng.randrange(0, 4)):
+            b.send(POL_IDEM)
+            b.op(op="quiesce")
+    b.op(op="quiesce")
+    b.op(op="resolve_all", how="ok")
+    b.op(op="advance", by=2000)
+    b.op(op="resolve_all", how="ok")
+    b.op(op="quiesce")
+    b.heal()
+    b.shutdown()
+    return b.script, {"enc": b.enc, "blockers": [], "proto": proto, "profile": "queue_fill", "seed": seed}
